@@ -89,6 +89,7 @@ func returnsResultsOf(fn *ssa.Function, call *ssa.Call) (bool, string) {
 				return false, "unexpected result count"
 			}
 			for i, rv := range ret.Results {
+				rv = seeThroughHelper(rv)
 				isZero := false
 				if c, ok := rv.(*ssa.Const); ok {
 					isZero = c.Value == nil || (c.Value.ExactString() == `""`)
@@ -497,15 +498,16 @@ func returnsCompose(fn *ssa.Function, compile, validate *ssa.Call) (bool, string
 			if len(ret.Results) != 2 {
 				return false, "unexpected result count"
 			}
-			ex1, ok1 := ret.Results[1].(*ssa.Extract)
+			res0, res1 := seeThroughHelper(ret.Results[0]), seeThroughHelper(ret.Results[1])
+			ex1, ok1 := res1.(*ssa.Extract)
 			switch {
 			case ok1 && ex1.Tuple == ssa.Value(validate) && ex1.Index == 1:
-				ex0, ok0 := ret.Results[0].(*ssa.Extract)
+				ex0, ok0 := res0.(*ssa.Extract)
 				if !ok0 || ex0.Tuple != ssa.Value(validate) || ex0.Index != 0 {
 					return false, "a return pairs the validate call's error with another value"
 				}
 			case ok1 && ex1.Tuple == ssa.Value(compile) && ex1.Index == 1:
-				if c, ok := ret.Results[0].(*ssa.Const); !ok || !(c.Value == nil || c.Value.ExactString() == `""`) {
+				if c, ok := res0.(*ssa.Const); !ok || !(c.Value == nil || c.Value.ExactString() == `""`) {
 					return false, "the error branch of the compile call returns a non-empty report"
 				}
 			default:
@@ -575,4 +577,70 @@ func dominatedByNilBranch(v ssa.Value, b *ssa.BasicBlock) bool {
 		}
 	}
 	return false
+}
+
+// seeThroughHelper: a value obtained as result i of a call to a module helper that returns, at position i, always the
+// same one of its parameters (or always the same constant) is that argument (or constant): `return closeWithError(ch, err)`
+// yields err and "".
+func seeThroughHelper(v ssa.Value) ssa.Value {
+	for depth := 0; depth < 4; depth++ {
+		ex, ok := v.(*ssa.Extract)
+		if !ok {
+			return v
+		}
+		call, ok := ex.Tuple.(*ssa.Call)
+		if !ok {
+			return v
+		}
+		h := call.Call.StaticCallee()
+		if h == nil || !IsModuleFunc(h) || h.Blocks == nil {
+			return v
+		}
+		var prm *ssa.Parameter
+		var cst *ssa.Const
+		n := 0
+		for _, b := range h.Blocks {
+			for _, ins := range b.Instrs {
+				ret, ok := ins.(*ssa.Return)
+				if !ok || ex.Index >= len(ret.Results) {
+					continue
+				}
+				n++
+				switch rv := ret.Results[ex.Index].(type) {
+				case *ssa.Parameter:
+					if prm != nil && prm != rv {
+						return v
+					}
+					prm = rv
+				case *ssa.Const:
+					if cst != nil && !(cst.Value == rv.Value || (cst.Value != nil && rv.Value != nil && cst.Value.ExactString() == rv.Value.ExactString())) {
+						return v
+					}
+					cst = rv
+				default:
+					return v
+				}
+			}
+		}
+		switch {
+		case n == 0:
+			return v
+		case prm != nil && cst == nil:
+			k := -1
+			for i, q := range h.Params {
+				if q == prm {
+					k = i
+				}
+			}
+			if k < 0 || k >= len(call.Call.Args) {
+				return v
+			}
+			v = call.Call.Args[k]
+		case cst != nil && prm == nil:
+			return cst
+		default:
+			return v
+		}
+	}
+	return v
 }
